@@ -563,6 +563,69 @@ class Rope:
     def rjust(self, width, fillchar=None):
         return self._just(width, fillchar, False)
 
+    # ---- strip family: content dependent.  Known content (Lit / Fill) is stripped for real; at an opaque piece the number of
+    # stripped elements is a bounded nondeterministic choice k in 0..STRIP_MAX (the inspected elements go through the peek table),
+    # or "the whole piece consists of strip characters" (recorded on the source for the witness builder).
+    STRIP_MAX = 2
+
+    def _strip_side(self, chars, left):
+        dflt = ' \t\n\r\x0b\x0c' if self.kind == 't' else b' \t\n\r\x0b\x0c'
+        chars = dflt if chars is None else chars
+        vals = [ord(c) for c in chars] if self.kind == 't' else list(chars)
+        ps = list(nonempty_pieces(self))
+        ex = core.cur()
+        while ps:
+            p = ps[0] if left else ps[-1]
+            if isinstance(p, Lit):
+                v = p.v.lstrip(chars) if left else p.v.rstrip(chars)
+                if len(v):
+                    ps[0 if left else -1] = Lit(v)
+                    break
+                ps.pop(0 if left else -1)
+                continue
+            if isinstance(p, Fill):
+                if (ord(p.ch) if self.kind == 't' else p.ch[0]) in vals:
+                    ps.pop(0 if left else -1)
+                    continue
+                break
+            if isinstance(p, Opq):
+                L = p.length()
+                mode = ex.choose('strip_%s' % p.src.name, self.STRIP_MAX + 2)      # 0..STRIP_MAX elements, or everything
+                if mode == self.STRIP_MAX + 1:
+                    p.src.__dict__.setdefault('fills', []).append((p.lo, p.hi, vals[0], p.chain))
+                    ps.pop(0 if left else -1)
+                    continue
+                k = mode
+                if not (k <= L):
+                    raise core.PathAbort('piece shorter than the stripped run')
+                for i in range(k):
+                    pos = (p.lo + i) if left else (p.hi - 1 - i)
+                    b = p.src.peek(pos, p.chain)
+                    core.assume(s_or(*[s_eq(b, v) for v in vals]))
+                if not same_int(L, k):
+                    if k < L:
+                        pos = (p.lo + k) if left else (p.hi - 1 - k)
+                        b = p.src.peek(pos, p.chain)
+                        core.assume(s_and(*[s_not(s_eq(b, v)) for v in vals]))
+                        ps[0 if left else -1] = p.cut(k, L) if left else p.cut(0, L - k)
+                        break
+                    ps.pop(0 if left else -1)
+                    continue
+                ps.pop(0 if left else -1)
+                continue
+            raise Unsupported('strip reaching a %s piece' % type(p).__name__)
+        return norm(self.kind, ps)
+
+    def rstrip(self, chars=None):
+        return self._strip_side(chars, False)
+
+    def lstrip(self, chars=None):
+        return self._strip_side(chars, True)
+
+    def strip(self, chars=None):
+        r = self._strip_side(chars, False)
+        return r._strip_side(chars, True) if isinstance(r, Rope) else r.lstrip(chars)
+
     def __getattr__(self, name):
         # any other str/bytes method on abstract content: not expressible -> the obligation is inconclusive (never a pseudo-violation)
         if name.startswith('__'):
@@ -612,9 +675,6 @@ class TRope(Rope):
 
     def encode(self, encoding='utf-8', errors='strict'):
         return self._recode('e', encoding, 'b')
-
-    def rstrip(self, chars=None):
-        raise Unsupported('rstrip on abstract text')
 
     def isdigit(self):
         from . import models
@@ -992,6 +1052,10 @@ def concretize_source(src, ev):
                         data[a:b] = enc
                 except Exception:
                     pass
+        for lo, hi, val, chain in src.__dict__.get('fills', []):
+            a, b = ev(lo), ev(hi)
+            if 0 <= a <= b <= n and not chain:
+                data[a:b] = bytes([val]) * (b - a)
         for pos, v in src.__dict__.get('u32s', []):
             p = ev(pos)
             if 0 <= p and p + 4 <= n:
@@ -1002,6 +1066,13 @@ def concretize_source(src, ev):
                 data[p] = ev(v)
         out = bytes(data)
     else:
+        for lo, hi, val, chain in src.__dict__.get('fills', []):
+            a, b = ev(lo), ev(hi)
+            if 0 <= a <= b <= n:
+                if not chain:
+                    txt[a:b] = [chr(val)] * (b - a)
+                elif len(chain) == 1 and chain[0][0] == 'e':
+                    txt[a:b] = [bytes([val]).decode(chain[0][1])] * (b - a)
         for pos, chain, v in src.peeks:
             p = ev(pos)
             if 0 <= p < n and not chain:
